@@ -3,21 +3,11 @@ import BobEM.Lemmas.GmmEM
 open Finset BobEM
 variable {C D : ℕ}
 
-namespace BobEM
-/-- GMMStats.__add__ / __iadd__ (fixed shapes) -/
-def Stats.add {α : Type} [Add α] (a b : Stats C D α) : Stats C D α :=
-  { n := fun c => a.n c + b.n c
-    sumPx := fun c d => a.sumPx c d + b.sumPx c d
-    sumPxx := fun c d => a.sumPxx c d + b.sumPxx c d
-    ll := a.ll + b.ll }
-def Stats.zero {α : Type} [OfNat α 0] : Stats C D α :=
-  { n := fun _ => 0, sumPx := fun _ _ => 0, sumPxx := fun _ _ => 0, ll := 0 }
-end BobEM
 
 theorem C02_additive (p : Params (C+1) D ℝ) (xs ys : List (Fin D → ℝ)) :
     eStep p (xs ++ ys) = (eStep p xs).add (eStep p ys) := by
   unfold eStep Stats.add
-  simp only [lsum_eq, List.map_append, List.sum_append]
+  simp only [lsum_eq, List.map_append, List.sum_append, List.length_append]
 
 theorem C02_any_partition (p : Params (C+1) D ℝ) (blocks : List (List (Fin D → ℝ))) :
     eStep p blocks.flatten = (blocks.map (eStep p)).foldl Stats.add Stats.zero := by
